@@ -4,5 +4,8 @@ MCInitSets == {<<0>>, <<0, 2>>, <<0, 1, 3>>, <<0, 2, 4>>}
 MCInitSmall == {<<0>>, <<0, 2>>}
 SlopeSet == {-1, 0, 2}
 SlopeSmall == {-1, 2}
-View == <<iv, sl, ic, Len(h), h[Len(h)].act>>
+\* `frozen` never changes under Sharing = "copy" (checked by FrozenUntouched on every transition), so its
+\* length is enough to tell states apart there; the alias variant uses the full view
+View == <<iv, sl, ic, Len(h), h[Len(h)].act, Len(frozen)>>
+ViewFull == <<iv, sl, ic, Len(h), h[Len(h)].act, frozen>>
 =============================================================================
